@@ -246,6 +246,80 @@ def lemma_L2a():
     return {"name": "lemma.L2a (EZ = exists separating layer)", "status": st, "parts": r1["parts"] + r2["parts"], "seconds": r1["seconds"] + r2["seconds"]}
 
 
+def lemma_L2b():
+    """L2b: the separating-layer condition DZ is a statement about Z-RANKS OF WORLDS.
+    kzw(P, w) := RZ(P, {w}, top) is the Z-rank of the single world w (the same descent the ranking
+    object uses).  Proved (inductions with the context / the threshold quantified in the hypothesis):
+      (R1) RZ(P, H, i) <= i + 1
+      (R2) Rset is antitone: Rset(P, i) <= Rset(P, i + 1), hence Rset(P, j) <= Rset(P, i) for j <= i   (as d = i - j)
+      (R3) for w in Rset(P, i+1) and every j >= 0:  RZ(P, {w}, i) <= j  <=>  j >= i+1  or  w in Rset(P, j)
+      (R4) for 0 <= j < |P|:  w in Rset(P, j)  <=>  kzw(P, w) <= j                     (R3 at the top layer)
+      (R5) DZ(P, q, i)  <=>  some j in [0, i] separates:  Rset(P,j) meets ver q and misses fal q
+    Together: System Z's answer = "some threshold j < |P| has a verifying world of rank <= j and no
+    falsifying world of rank <= j", i.e. rank(AB) < rank(A not B) with the minimum over an empty set
+    infinite (that last reading of `<` between minima is arithmetic, stated in DESIGN)."""
+    from contracts import c_preocf as CP
+    from pyvc import iterm as IT
+    from pyvc.logic import Forall
+
+    P = z3.Const("P_2b", LLCnd.sort)
+    H, H2 = z3.Consts("H_2b H2_2b", L.WSet)
+    w = z3.Const("w_2b", L.World)
+    q = z3.Const("q_2b", L.Cnd)
+    i, j, d = z3.Ints("i_2b j_2b d_2b")
+    m = LLCnd.len(P)
+    RZ = CP.RZ
+    single = lambda x: z3.Store(L.EMPTY, x, True)
+    out = []
+    # R1
+    c1 = lambda HH, k: z3.Implies(0 <= k, RZ(P, HH, k) <= k + 1)
+    ih1 = lambda k: Forall([H2], [RZ(P, H2, k)], c1(H2, k), "R1.ih")
+    out.append(_prove("L2b.R1", [("base i=0", [i == 0], c1(H, i), []), ("step", [i >= 0, ih1(i)], c1(H, i + 1), [])]))
+    # R2
+    sub = lambda a, b: L.subset(a, b)
+    c2 = lambda dd: z3.Implies(z3.And(0 <= dd, 0 <= i - dd), sub(RZs(P, i - dd), RZs(P, i)))
+    out.append(_prove("L2b.R2", [("base d=0", [d == 0], c2(d), []), ("step", [d >= 0, c2(d)], c2(d + 1), [RZs(P, i - d - 1), RZs(P, i - d)])]))
+    # R3
+    def c3(k, jj):
+        return z3.Implies(z3.And(0 <= k, k < m, z3.Select(RZs(P, k + 1), w), 0 <= jj), (RZ(P, single(w), k) <= jj) == z3.Or(jj >= k + 1, z3.Select(RZs(P, jj), w)))
+
+    j2 = z3.Int("j2_2b")
+    ih3 = lambda k: Forall([j2], [RZs(P, j2)], c3(k, j2), "R3.ih")
+    r2inst = lambda a, b: z3.Implies(z3.And(0 <= a, a <= b), sub(RZs(P, a), RZs(P, b)))  # (R2) as proved, instantiated
+    out.append(
+        _prove(
+            "L2b.R3",
+            [
+                ("base i=0", [i == 0], c3(i, j), [RZs(P, 0), RZs(P, 1), RZs(P, j)]),
+                ("step", [i >= 0, ih3(i), r2inst(j, i + 1), c1(single(w), i)], c3(i + 1, j), [RZs(P, i + 1), RZs(P, i + 2), RZs(P, j), RZ(P, single(w), i)]),
+            ],
+            fuel=5,
+        )
+    )
+    # R4
+    kzw = RZ(P, single(w), m - 1)
+    out.append(_prove("L2b.R4", [("top layer", [m >= 1, 0 <= j, j < m, c3(m - 1, j)], z3.Select(RZs(P, j), w) == (kzw <= j), [RZs(P, m)])]))
+    # R5
+    Sep, _sw = IT.defpred_some("SepUpTo", [LLCnd.sort, L.Cnd, L.Int], lambda x: x[2] + 1, lambda x, jj: z3.And(_V(x[0], x[1], jj), z3.Not(_F(x[0], x[1], jj))), lambda x, jj: RZs(x[0], jj))
+    c5 = lambda k: z3.Implies(0 <= k, DZ(P, q, k) == Sep(P, q, k))
+    SW = z3.Function("SepUpTo!w", LLCnd.sort, L.Cnd, L.Int, L.Int)
+    out.append(
+        _prove(
+            "L2b.R5",
+            [
+                ("base i=0", [i == 0], c5(i), [RZs(P, 0), RZs(P, SW(P, q, 0))]),
+                ("step", [i >= 0, c5(i)], c5(i + 1), [RZs(P, i + 1), RZs(P, SW(P, q, i)), RZs(P, SW(P, q, i + 1))]),
+            ],
+            fuel=5,
+        )
+    )
+    worst = "proved"
+    for r in out:
+        if r["status"] != "proved":
+            worst = r["status"] if worst == "proved" else worst
+    return {"name": "lemma.L2b (separating layer <=> comparison of world ranks)", "status": worst, "parts": [{"part": r["name"], "status": r["status"]} for r in out], "seconds": round(sum(r["seconds"] for r in out), 3)}
+
+
 def lemma_RangeList():
     from contracts.c_diagnostics import RangeList
     from pyvc.logic import Forall
@@ -599,6 +673,7 @@ LEMMAS = {
     "XI": lemma_XI,
     "RangeList": lemma_RangeList,
     "L2a": lemma_L2a,
+    "L2b": lemma_L2b,
     "lenGLs": lambda: lemma_lenGLs(PS, LCnd, LLCnd, (), ""),
     "L-stop": lambda: lemma_Lstop(PS, LCnd, (), ""),
     "L-stopk": lambda: lemma_Lstop(PSK, LInt, (z3.Const("val_ls", z3.ArraySort(L.Int, L.Cnd)),), "k"),
